@@ -603,7 +603,7 @@ func c09GenLog(rng *vh.Rand, n int, wild bool) *c09Gen {
 // ---------------------------------------------------------------- running one case
 
 type c09Event struct {
-	kind byte // B batch, R restart, S snapshot, L clearOldEntries on this replica only (Rollback on the leader)
+	kind byte // B batch, R restart, S snapshot, L clearOldEntries on this replica only (Rollback on the leader), P persist of a local snapshot taken at index low
 	r    int
 	n    int // batch size
 	src  int
@@ -648,6 +648,21 @@ func c09Run(t *testing.T, out *vh.Out, rng *vh.Rand, entries []*c09Entry, k int,
 				out.Op(r.state(), "snap", vh.I(int64(ev.r)), vh.I(int64(ev.src)))
 			}
 			r.pos = reps[ev.src].pos
+		case 'P':
+			// raft persists this replica's LOCAL snapshot: the position (ev.low) was captured on the FSM goroutine
+			// earlier, Persist -> FSM.witnessSnapshot runs now, after the FSM has applied further entries
+			lidx, lcfg := r.fsm.LatestState()
+			meta := &raft.SnapshotMeta{Index: ev.low, Term: lidx.Term}
+			if lcfg != nil {
+				meta.ConfigurationIndex, meta.Configuration = protoConfigurationToRaftConfiguration(lcfg)
+			}
+			res := "ok"
+			if err := r.fsm.witnessSnapshot(meta); err != nil {
+				res = "err:" + err.Error()
+			} else {
+				res = r.state()
+			}
+			out.Op(res, "persist", vh.I(int64(ev.r)), vh.U(ev.low))
 		case 'L':
 			// what RaftTransaction.Rollback's deferred function does on the node that ran the transaction
 			r.fsm.fastTxnTracker.clearOldEntries(ev.low)
@@ -686,6 +701,12 @@ func c09Random(rng *vh.Rand, n int, pRestart, pSnap int) func([]*c09Replica) c09
 		r := reps[ri]
 		if rng.Chance(pRestart) {
 			return c09Event{kind: 'R', r: ri}
+		}
+		if pSnap > 0 && r.pos > 0 && rng.Chance(pSnap) {
+			// a local snapshot whose position was captured anywhere at or before the current index
+			if li, _ := r.fsm.LatestState(); li.Index > 0 {
+				return c09Event{kind: 'P', r: ri, low: li.Index - uint64(rng.Intn(int(min(li.Index, 4))+1))}
+			}
 		}
 		if rng.Chance(pSnap) {
 			var srcs []int
@@ -740,6 +761,7 @@ func c09B(r, n int) c09Event   { return c09Event{kind: 'B', r: r, n: n} }
 func c09R(r int) c09Event      { return c09Event{kind: 'R', r: r} }
 func c09S(r, src int) c09Event { return c09Event{kind: 'S', r: r, src: src} }
 func c09L(r int, low uint64) c09Event { return c09Event{kind: 'L', r: r, low: low} }
+func c09P(r int, idx uint64) c09Event { return c09Event{kind: 'P', r: r, low: idx} }
 
 func TestVerifC09(t *testing.T) {
 	out := vh.Open()
@@ -757,6 +779,10 @@ func TestVerifC09(t *testing.T) {
 	c09Run(t, out, rng, f1, 2, c09Fixed([]c09Event{c09B(0, 3), c09B(1, 2), c09B(1, 1)}))
 	// F1 through a snapshot install: replica 1 receives indexes 1..2 as a snapshot of replica 0
 	c09Run(t, out, rng, f1, 2, c09Fixed([]c09Event{c09B(0, 2), c09S(1, 0), c09B(0, 1), c09B(1, 1)}))
+	// local snapshot persisted late (C09.snapshot_persist_regress_cex): replica 1 persists the snapshot it took at
+	// position 1 after it applied index 2; both replicas must still reject the transaction
+	c09Run(t, out, rng, f1, 2, c09Fixed([]c09Event{c09B(0, 3), c09B(1, 2), c09P(1, 1), c09B(1, 1)}))
+	c09Run(t, out, rng, f1z, 2, c09Fixed([]c09Event{c09B(0, 1), c09B(0, 1), c09P(0, 1), c09P(0, 0), c09B(0, 1), c09B(1, 3), c09P(1, 3)}))
 	// F1 with a deleted key and with a list verification
 	f1d := []*c09Entry{c09Put(1, "k", "old", 0), c09Del(2, "k", 0), c09Txn(3, 1, "k", []byte("old"), "j", 0)}
 	c09Run(t, out, rng, f1d, 2, c09Fixed([]c09Event{c09B(0, 3), c09B(1, 2), c09R(1), c09B(1, 1)}))
